@@ -46,6 +46,33 @@ fn chain_lookup(m: &Option<Vec<(K, K)>>, k: K) -> Option<K> {
     m.as_ref().and_then(|v| v.iter().find(|e| e.0 == k).map(|e| e.1))
 }
 
+
+/// Determines the relative order of chain_animations and select_animation in this process (they
+/// are mutually unordered in the plugin; bevy's hash maps are seeded per process). Returns true
+/// if the chain system runs before the select system.
+pub fn probe_chain_first() -> bool {
+    let mut d = Driver::new(|app| {
+        app.add_plugins((AnimationPlugin::<C>::new(), AnimationPlugin::<Q>::new()));
+        app.register_animation_key::<C, K>();
+    });
+    let mut sb = AnimationSelectorBuilder::<K, C>::new();
+    for k in [K::A, K::B, K::C] {
+        sb = sb.add(k, key_timeline(k).unwrap());
+    }
+    let e = d.app.world.spawn((C::initial(), Animator::<C>::new(), sb.build(), AnimationChainBuilder::<K>::new().add(K::A, K::B).build())).id();
+    // frames of 1/4 s: A (0.5 s) ends in frame 2; the chain moves the key in frame 3
+    for _ in 0..3 {
+        d.frame(Duration::from_millis(250));
+    }
+    assert_eq!(d.app.world.get::<Animator<C>>(e).unwrap().state(), AnimationState::Ended);
+    d.frame(Duration::from_millis(250));
+    let a = d.app.world.get::<Animator<C>>(e).unwrap();
+    let key = d.app.world.get::<AnimationSelector<K, C>>(e).unwrap().timeline_key;
+    assert_eq!(key, K::B, "probe: chain did not move the key");
+    // chain first: select saw the new key in the same frame and restarted the animator
+    a.state() != AnimationState::Ended
+}
+
 #[derive(Default)]
 struct Acc {
     sink: VSink,
@@ -107,7 +134,7 @@ fn case_json(sched: &[f64], ent: &Ent) -> Value {
            "keys": {"A": "0.5 s, x 10->20", "B": "0.5 s after 0.25 s, x 100->200", "C": "0.5 s infinite, x -10->-20", "N": "no timeline"}, "initial_key": "A", "initial_component": {"x": 3.0, "n": 33, "y": 7.0}})
 }
 
-fn run_schedule(sched: &[f64], assigns: &[Vec<Option<K>>], rank0: u64, acc: &mut Acc) {
+fn run_schedule(sched: &[f64], assigns: &[Vec<Option<K>>], chain_first: bool, rank0: u64, acc: &mut Acc) {
     let mut d = Driver::new(|app| {
         app.add_plugins((AnimationPlugin::<C>::new(), AnimationPlugin::<Q>::new()));
         app.register_animation_key::<C, K>();
@@ -189,7 +216,9 @@ fn run_schedule(sched: &[f64], assigns: &[Vec<Option<K>>], rank0: u64, acc: &mut
                 }
             }
             // ---- selection: acted on in this frame iff the key seen differs from the key acted on
-            let seen = n.key;
+            // the select system sees the key after the chain step of this frame if the chain system
+            // runs first in this process, otherwise the key as it was at the start of the frame
+            let seen = if chain_first { n.key } else { o.key };
             if ent.acted != Some(seen) {
                 acc.switches += 1;
                 acc.rule_checks += 3;
@@ -258,6 +287,8 @@ fn run_schedule(sched: &[f64], assigns: &[Vec<Option<K>>], rank0: u64, acc: &mut
 pub fn run(run: Run) -> ! {
     let thorough = run.is_thorough();
     let depth = if thorough { 6 } else { 5 };
+    let chain_first = probe_chain_first();
+    eprintln!("[C19] system order in this process: {}", if chain_first { "chain, select, animate" } else { "select, chain, animate" });
     // all key-assignment histories: before each frame {nothing, A, B, C, N}
     let opts: [Option<K>; 5] = [None, Some(K::A), Some(K::B), Some(K::C), Some(K::N)];
     let mut hs: Vec<Vec<Option<K>>> = vec![vec![]];
@@ -283,7 +314,7 @@ pub fn run(run: Run) -> ! {
                 sched.push(DELTAS[c % 3]);
                 c /= 3;
             }
-            run_schedule(&sched, &hs, (si as u64) << 40, acc);
+            run_schedule(&sched, &hs, chain_first, (si as u64) << 40, acc);
         },
         merge,
     );
@@ -322,7 +353,7 @@ pub fn run(run: Run) -> ! {
             }
         }
     }
-    let dev = par_fold(scheds.len(), Acc::default, |si, acc| run_schedule(&scheds[si], &hdev, (1u64 << 62) | (si as u64) << 40, acc), merge);
+    let dev = par_fold(scheds.len(), Acc::default, |si, acc| run_schedule(&scheds[si], &hdev, chain_first, (1u64 << 62) | (si as u64) << 40, acc), merge);
     let dev_apps = dev.apps;
     merge(&mut acc, dev);
     let mut cov = Map::new();
@@ -334,18 +365,19 @@ pub fn run(run: Run) -> ! {
     cov.insert("rule".into(), json!(format!("real headless bevy App (AnimationPlugin<C>, AnimationPlugin<Q>, register_animation_key::<C,K>, hand-driven Time): ALL {} frame-delta schedules of length {} over {{1/4, 8, 0}} s x ALL {} key-assignment histories (before each frame: nothing or key := A|B|C|N, including the current key) x 5 chain maps (none, A->B, A->B+B->A, A->N, B->C) x {{one animated component, a second component Q with its own short animator}}; plus a deviation-bounded pass ({} schedules of {} frames, default delta 1/4, <= {} deviations) with <= 2 assignments. Rules: S1 component unchanged in the frame a key change is acted on; S2 animation restarted from position 0 on the new key's timeline, thereafter the component equals that timeline started from the values at the switch; S3 key without timeline: state None, component frozen; S4 re-assigning the current key restarts nothing; S5 governed animator ended on k in frame f and chain(k)=k' and the user did not re-assign => key is k' in frame f+1; S6 the key changes only by assignment or S5 (the Ended must come from the governed animator and be applied to the key that ended). non-trivial = key changes acted on + chain moves", nsched, depth, hs.len(), dev_apps, horizon, k)));
     cov.insert("exhaustive".into(), json!(true));
     cov.insert("apps".into(), json!(acc.apps));
+    cov.insert("system_order_in_this_process".into(), json!(if chain_first { "chain_animations, select_animation, animate" } else { "select_animation, chain_animations, animate" }));
     cov.insert("key_switches_acted_on".into(), json!(acc.switches));
     cov.insert("chain_moves_observed".into(), json!(acc.chain_fires));
     cov.insert("distinct_observed_outcomes_capped".into(), json!(acc.outcomes.len()));
     cov.insert("samples".into(), json!(acc.samples));
-    run.finish(acc.sink, cov, vec!["explores the system order this build of bevy produces (chain before select before animate); a different order shows up as S5/S2 violations".into(), "animator-internal rules are C18's".into()])
+    run.finish(acc.sink, cov, vec!["chain_animations and select_animation are mutually unordered in the plugin and bevy seeds its hash maps per process, so their order varies from run to run; it is probed at start-up and the reference selector is parametrised by it (both orders were exercised during development)".into(), "animator-internal rules are C18's".into()])
 }
 
 pub fn replay(case: &Value) -> bool {
     let sched: Vec<f64> = case["frame_deltas_s"].as_array().map(|a| a.iter().map(|x| x.as_f64().unwrap()).collect()).unwrap_or_default();
     let assign: Vec<Option<K>> = case["key_assignment_before_each_frame"].as_array().map(|a| a.iter().map(|x| x.as_str().map(|s| *KEYS.iter().find(|k| format!("{k:?}") == s).unwrap())).collect()).unwrap_or_default();
     let mut acc = Acc::default();
-    run_schedule(&sched, &[assign], 0, &mut acc);
+    run_schedule(&sched, &[assign], probe_chain_first(), 0, &mut acc);
     let want_chain = case["chain_map_index"].as_u64().unwrap_or(0);
     let want_two = case["second_animated_component"].as_bool().unwrap_or(false);
     let mut ok = true;
